@@ -71,7 +71,9 @@ def run(ctx: Check) -> int:
                 "Simulate, Mark, threshold lines) with 1-5 cancel/force requests against run-log items chosen by index "
                 "(offered or not) or an unknown id at random ticks, force of the line waiting for its threshold; one case "
                 "in five: a timed Hold and a timed Pause started from two Watch bodies (same tick or 1-2 ticks apart), "
-                "cancel/force of either at a random tick, a user Pause/Hold now and then.")
+                "cancel/force of either at a random tick, a user Pause/Hold now and then; one case in ten: a UOD line "
+                "that runs several times (re-arming Alarm), cancel/force of the most recent invocation's item while it "
+                "runs (an offered request for a running UOD command must be accepted: offered-*-rejected:uod-command).")
     streams(ctx, ["c12", "c12", "mixed"], ctx.n(500, 12000), ctx.n(3, 4), ctx.n(60, 1500), [oracle_c12], "cmdmgr")
     engine_monitor(ctx, "c12", ctx.n(600, 14000), engine_oracle)
     # ---- begin: interpreter half, threshold clause (added by the C04 builder; code in harness/c12_threshold.py) ----
